@@ -944,6 +944,11 @@ func main() {
 		defer slowWg.Done()
 		closeRaces(rep.Pick(1200, 12000))
 	}()
+	slowWg.Add(1)
+	go func() {
+		defer slowWg.Done()
+		expiredIdleWindows(rep.Pick(6, 40))
+	}()
 	rep.Count("slow_cases(own timeouts expire naturally)", int64(len(slow)))
 	rep.Count("fast_cases", int64(len(fast)))
 	rep.Count("combinations_statically_unreachable(not run)", int64(skipped))
